@@ -428,6 +428,13 @@ def _dimer(ctx, realnum, m):
         @property
         def centroid(self):
             return sum(self.positions[i] for i in range(N)) / N
+
+        @property
+        def center_of_mass(self):
+            # the real masses of the tabulated elements, as exact rationals of their printed values
+            from chmpy.core.element import Element
+            ms = [Fraction(str(Element[int(z)].mass)) for z in self.atomic_numbers]
+            return sum(self.positions[i] * ms[i] for i in range(N)) / sum(ms)
     d = realdimer.Dimer.__new__(realdimer.Dimer)
     d.a, d.b, d.frac_shift = FakeMol(np.array(pa, dtype=object)), FakeMol(np.array(pb, dtype=object)), None
     from chmpy.core.molecule import Molecule
@@ -466,6 +473,6 @@ def _dimer(ctx, realnum, m):
         pa0 = rr.normal(size=(4, 3)) + 5
         Q = np.linalg.qr(rr.normal(size=(3, 3)))[0]
         Q *= np.sign(np.linalg.det(Q))
-        pb0 = (pa0 - pa0.mean(axis=0)) @ Q + np.array([3.0, -2.0, 9.0])
+        pb0 = (pa0 - pa0.mean(axis=0)) @ Q + np.array([3.0, -2.0, 9.0]) + 0.05 * rr.normal(size=(4, 3))
         ctx.violation("dimer:args", "Dimer.calculate_transform does not align the centred molecules",
                       {"Z": [6, 1, 8, 7], "pos_a": pa0.tolist(), "pos_b": pb0.tolist()}, replay_dimer)
